@@ -1069,9 +1069,29 @@ impl MIndex {
                     Some(m) => Some(m.build()?),
                     None => None,
                 };
-                secs.push(SourceMapSection::new(s.off, s.url.clone(), map));
+                secs.push((s.off, s.url.clone(), map));
             }
-            Ok(SourceMapIndex::new(self.file.clone(), secs))
+            // every other section is created empty and filled in afterwards through the mutators
+            // (`get_section_mut`, `set_url`, `set_sourcemap`); the file through `set_file` likewise
+            let late = |k: usize| k % 2 == 1;
+            let mut idx = SourceMapIndex::new(
+                if secs.len() % 2 == 1 { None } else { self.file.clone() },
+                secs.iter()
+                    .enumerate()
+                    .map(|(k, (off, url, map))| if late(k) { SourceMapSection::new(*off, None, None) } else { SourceMapSection::new(*off, url.clone(), map.clone()) })
+                    .collect(),
+            );
+            if secs.len() % 2 == 1 {
+                idx.set_file(self.file.as_deref());
+            }
+            for (k, (_, url, map)) in secs.into_iter().enumerate() {
+                if late(k) {
+                    let sec = idx.get_section_mut(k as u32).ok_or("get_section_mut returns None for an existing section")?;
+                    sec.set_url(url.as_deref());
+                    sec.set_sourcemap(map);
+                }
+            }
+            Ok(idx)
         } else {
             let text = self.to_json();
             SourceMapIndex::from_slice(text.as_bytes())
